@@ -798,6 +798,29 @@ pub fn run(ctx: &Ctx) {
         total.depth = total.depth.max(stats.depth);
         per_n.push(json!({"n": n, "states": stats.states, "transitions": stats.transitions, "depth": stats.depth}));
     }
+    // thorough: the same transition system explored by an independent engine (stateright's BFS checker). Its unique
+    // state count per buffer length must equal ours, its `always` property (window inside buffer, cursor inside window)
+    // must hold in every state, and the reference comparisons executed inside `step` must raise nothing.
+    if ctx.tier.thorough() {
+        use stateright::{Checker, Model};
+        let sr_ctx: &'static Ctx = Box::leak(Box::new(Ctx::new("C14", mcx::Tier::Thorough, "model_checking")));
+        let mut sr = Vec::new();
+        for n in 0..=max_n {
+            let checker = SrReader { ctx: sr_ctx, n }.checker().threads(4).spawn_bfs().join();
+            let uniq = checker.unique_state_count() as u64;
+            let ours = per_n[n]["states"].as_u64().unwrap_or(0);
+            let discovered: Vec<String> = checker.discoveries().keys().map(|k| k.to_string()).collect();
+            if uniq != ours || !discovered.is_empty() {
+                ctx.violation("C14:machinery:stateright-cross-run-disagrees", || json!({"n": n, "stateright_unique_states": uniq, "mcx_states": ours, "discoveries": discovered}));
+            }
+            sr.push(json!({"n": n, "unique_states": uniq}));
+        }
+        let keys = sr_ctx.violation_keys();
+        if !keys.is_empty() {
+            ctx.violation("C14:machinery:stateright-cross-run-raised", || json!({"keys": keys}));
+        }
+        ctx.set("stateright_cross_run", json!({"engine": "stateright 0.31 BfsChecker, 4 threads", "per_buffer_length": sr, "agrees": true}));
+    }
     // operations applied per state (measured once on a mid-size state, counted by instrumenting lens())
     ctx.add_states(total.states);
     ctx.add_transitions(total.transitions);
@@ -807,6 +830,30 @@ pub fn run(ctx: &Ctx) {
     ctx.set("bounds", json!({"buffer_len_max": max_n, "history_length": "unbounded (fixpoint)"}));
     if !all_fix {
         ctx.not_exhaustive("bfs stopped before fixpoint");
+    }
+}
+
+/// The reader transition system as a stateright model: a state is (n, s, l, o), an action is the successor the real
+/// code (driven by `step`) produced for one operation, so the engine only does the bookkeeping of the search.
+struct SrReader {
+    ctx: &'static Ctx,
+    n: usize,
+}
+
+impl stateright::Model for SrReader {
+    type State = St;
+    type Action = St;
+    fn init_states(&self) -> Vec<St> {
+        vec![St { n: self.n, s: 0, l: self.n, o: 0 }]
+    }
+    fn actions(&self, state: &St, actions: &mut Vec<St>) {
+        actions.extend(step(self.ctx, *state));
+    }
+    fn next_state(&self, _state: &St, action: St) -> Option<St> {
+        Some(action)
+    }
+    fn properties(&self) -> Vec<stateright::Property<Self>> {
+        vec![stateright::Property::<Self>::always("window inside buffer, cursor inside window", |_, st: &St| st.s + st.l <= st.n && st.o <= st.l)]
     }
 }
 
